@@ -105,7 +105,7 @@ def tap_class(base):
 
         def _evaluate_acceptance(self):
             r = super()._evaluate_acceptance()
-            self._v_trans.append((int(self.current_proposal), np.array(self.current_model, dtype=float).copy(), float(self.current_x)))
+            self._v_trans.append((int(self.current_proposal), np.array(self.current_model, dtype=float).copy(), float(np.asarray(self.current_x, dtype=float).reshape(-1)[0])))
             self._v_phase = "exchange"
             return r
 
